@@ -22,6 +22,7 @@ func checkC11(c *Ctx) {
 	c.rule("C11.e", "enumeration of a static set cannot wrap at 2^32-1", 1)
 	c.rule("C11.f", "nil-able command fields are dereferenced only after a non-nil test (own or the matcher's)", 2)
 	c.rule("C11.g", "parsed wire numbers are never narrowed after parsing", 5)
+	c.rule("C11.h", "message numbers and UIDs read from the wire are tested non-zero before they are handed to the caller", 5)
 	ruleRecursion(c, "C11.a", func(f *ssa.Function) bool { return pkgPathOf(f) == modPath+"/imapclient" })
 	ruleZeroFromWire(c, "C11.b")
 	ruleDynamicRefused(c, "C11.c")
@@ -49,6 +50,7 @@ func checkC11(c *Ctx) {
 	ruleEnumerationBoundary(c, "C11.e")
 	ruleNilableFields(c, "C11.f")
 	ruleNoNarrowing(c, "C11.g")
+	ruleDeliveredNumbers(c, "C11.h")
 }
 
 // ruleZeroFromWire: C11.b.
